@@ -11,8 +11,8 @@ use crate::seam::*;
 use crate::types::*;
 use std::panic::{catch_unwind, AssertUnwindSafe};
 
-pub const NAMES: &[&str] = &[R1, R2, R3, R4I, R4J, R4, R4K];
-const SPAN_ROUTES: &[&str] = &[R1, R2, R3, R4I, R4J];
+pub const NAMES: &[&str] = &[R1, R2, R3, R4I, R4J, R4, R4K, R2S, R2P, R1D];
+const SPAN_ROUTES: &[&str] = &[R1, R2, R3, R4I, R4J, R2S, R2P, R1D];
 
 /// Real `toml::Spanned` in std's hashed and ordered collections: wrapping must not change which
 /// elements a set keeps or which keys a map finds (Eq / Ord / Hash / Borrow of `Spanned` look at the
@@ -639,9 +639,10 @@ pub fn execute(sc: &Scenario, verbose: bool) -> RunOut {
     let plain = ty.despanned();
     let root_item = im.as_item();
     for route in SPAN_ROUTES {
-        if !sc.wants(route) {
+        if !route_on(sc, route) {
             continue;
         }
+        out.stats.inc(&format!("route.{}", route.split(':').next().unwrap_or(route)));
         let run = |t: &Ty, out: &mut RunOut, title: &str| {
             let cx = Ctx::new(Fault::None, verbose);
             let rcfg = RCfg::plain();
